@@ -174,3 +174,17 @@ void h_decode_bounded(void) {
     __CPROVER_assert((pre < 1 || out[0] == o0) && (pre < 2 || out[1] == o1) && o.buffer == out, "bytes below the old length untouched");
     if (!ok) CANARY("malformed refused"); else if (m < n) CANARY("escape decoded"); else CANARY("literal");
 }
+
+/* ------------------------------------------------------------------ query-string iteration: one step, unbounded
+ * (contract in contracts/uri.h; next_split and memchr replaced by their contracts, loop contract for the skipping loop).
+ * The query string (any length, any bytes) and the param (zeroed / a previous pair) are built by the contract's requires;
+ * g_qs_s == 0 identifies the first call (a resume starts at offset >= 1). */
+void h_query_next_param(void) {
+    GHOSTS();
+    g_qw = nondet_size_t(); g_qs_s = nondet_size_t(); g_mm = nondet_size_t();
+    struct aws_byte_cursor q;
+    struct aws_uri_param *p;
+    bool r = aws_query_string_next_param(q, p);
+    if (g_qs_s == 0) { if (r) CANARY("first call: pair"); else CANARY("first call: nothing (empty or only '&')"); }
+    else { if (r) CANARY("resume: next pair"); else CANARY("resume: end"); }
+}
